@@ -20,6 +20,9 @@ pub enum Case {
     Bloom { bpk: usize, keys: Vec<Vec<u8>>, probes: Vec<Vec<u8>> },
     /// bits per key, blocks (start offset, keys), extra (offset, key) queries
     Block { bpk: usize, blocks: Vec<(usize, Vec<Vec<u8>>)>, queries: Vec<(usize, Vec<u8>)> },
+    /// a filter block whose middle data block holds `n` keys (counter keys, written compactly so that
+    /// a 100 000-key case stays a short line): blocks of `pre`, `n`, `post` keys, `gap` bytes apart
+    Big { bpk: usize, pre: usize, n: usize, post: usize, gap: usize },
 }
 
 fn hexlist(v: &[Vec<u8>]) -> String {
@@ -33,8 +36,31 @@ fn unhexlist(s: &str) -> Option<Vec<Vec<u8>>> {
 }
 
 impl Case {
+    /// the counter keys of a `Big` case
+    fn expand(&self) -> Case {
+        match self {
+            Case::Big { bpk, pre, n, post, gap } => {
+                let mut ctr = 0u32;
+                let mut mk = |cnt: usize| -> Vec<Vec<u8>> {
+                    (0..cnt)
+                        .map(|_| {
+                            ctr += 1;
+                            let mut k = ctr.to_be_bytes().to_vec();
+                            k.truncate(1 + (ctr as usize % 4).max(2));
+                            k.extend_from_slice(&ctr.to_le_bytes());
+                            k
+                        })
+                        .collect()
+                };
+                let blocks = vec![(0usize, mk(*pre)), (*gap, mk(*n)), (2 * *gap, mk(*post))];
+                Case::Block { bpk: *bpk, blocks, queries: vec![(*gap, vec![0xfe, 0xfe]), (0, vec![0xfd])] }
+            }
+            other => other.clone(),
+        }
+    }
     pub fn to_line(&self) -> String {
         match self {
+            Case::Big { bpk, pre, n, post, gap } => format!("c14 big bpk={bpk} pre={pre} n={n} post={post} gap={gap}"),
             Case::Bloom { bpk, keys, probes } => format!("c14 bloom bpk={} keys={} probes={}", bpk, hexlist(keys), hexlist(probes)),
             Case::Block { bpk, blocks, queries } => format!(
                 "c14 block bpk={} blocks={} queries={}",
@@ -56,6 +82,7 @@ impl Case {
         }
         let bpk: usize = kv.get("bpk")?.parse().ok()?;
         match toks[1] {
+            "big" => Some(Case::Big { bpk, pre: kv.get("pre")?.parse().ok()?, n: kv.get("n")?.parse().ok()?, post: kv.get("post")?.parse().ok()?, gap: kv.get("gap")?.parse().ok()? }),
             "bloom" => Some(Case::Bloom { bpk, keys: unhexlist(kv.get("keys")?)?, probes: unhexlist(kv.get("probes")?)? }),
             "block" => {
                 let mut blocks = vec![];
@@ -77,7 +104,10 @@ impl Case {
 
 pub fn run_case(c: &Case, drv: &mut Drv, rep: &mut Report) {
     let line = c.to_line();
+    let big = matches!(c, Case::Big { .. });
+    let c = &c.expand();
     match c {
+        Case::Big { .. } => {}
         Case::Bloom { bpk, keys, probes } => {
             let policy = BloomFilterPolicy::new(*bpk);
             let filter = policy.create_filter(keys);
@@ -203,13 +233,16 @@ pub fn run_case(c: &Case, drv: &mut Drv, rep: &mut Report) {
             for (o, ks) in blocks {
                 req.push_str(&format!(" {}:{}", o, hexlist(ks)));
             }
-            let ans = drv.ask(&req);
+            let ans = if big && nkeys > 5_000 { "no-model".to_string() } else { drv.ask(&req) };
+            if big {
+                rep.count(&format!("block.big.keys-in-one-block.{}", if nkeys > 131_072 { ">2^17" } else if nkeys > 65_536 { ">2^16" } else if nkeys > 32_768 { ">2^15" } else if nkeys > 4096 { ">2^12" } else { "<=2^12" }));
+            }
             if ans != "no-model" && ans != hex(&data) {
                 rep.drift.push(format!("filter block bytes differ from the model :: {line}"));
                 rep.count("model_drift");
             }
             for (i, (o, k)) in qs.iter().enumerate().skip(nown.saturating_sub(4)) {
-                let ans = drv.ask(&format!("filter.match {} {} {}", hex(&data), o, hex(k)));
+                let ans = if big && nkeys > 5_000 { "no-model".to_string() } else { drv.ask(&format!("filter.match {} {} {}", hex(&data), o, hex(k))) };
                 let got = if answers[i] { "true" } else { "false" };
                 rep.count(&format!("block.query.{got}"));
                 if ans != "no-model" && ans != got {
@@ -256,7 +289,7 @@ fn job(c: &Case, drv: &mut Drv, rep: &mut Report) {
 pub fn run(tier: &str, seed: u64, drv_path: &str, replay: Option<&str>, corpus: &str) -> Report {
     let mut rep = Report::new(
         "c14",
-        "(1) Bloom policy via the public API: key sets of size 0..5000 (duplicates, empty key, every length mod 4, 0xff runs) x bits_per_key 1..64 (every value visited); (2) filter block builder/reader in the table builder's call order over generated block layouts (gaps 1..6000 bytes: several blocks per 2 KiB range and blocks spanning several ranges, blocks without keys). Non-trivial = at least one key; distinct by case text.",
+        "(1) Bloom policy via the public API: key sets of size 0..5000 (duplicates, empty key, every length mod 4, 0xff runs) x bits_per_key 1..64 (every value visited); (2) filter block builder/reader in the table builder's call order over generated block layouts (gaps 1..6000 bytes: several blocks per 2 KiB range and blocks spanning several ranges, blocks without keys); (3) one data block holding 255 .. 70 000 keys (thorough: up to 262 145), counts around powers of two. Non-trivial = at least one key; distinct by case text.",
     );
     if let Some(line) = replay {
         let mut drv = Drv::spawn(drv_path);
@@ -330,6 +363,17 @@ pub fn run(tier: &str, seed: u64, drv_path: &str, replay: Option<&str>, corpus: 
         }
         let queries = (0..4).map(|_| (rng.below(off as u64 + 5000) as usize, gen_key(&mut rng))).collect();
         jobs.push(Case::Block { bpk, blocks, queries });
+    }
+    // (3) very many keys in one data block (a huge max_block_size with tiny entries): counts around
+    // powers of two, where a builder that buffers keys might cut a filter early
+    let mut sizes: Vec<usize> = vec![255, 256, 257, 1023, 1025, 4095, 4097, 16_385, 32_769, 65_535, 65_536, 65_537, 70_000];
+    if thorough {
+        sizes.extend([131_071, 131_073, 200_000, 262_145]);
+    }
+    for n in sizes {
+        let bpk = rng.range(1, 64) as usize;
+        let gap = *rng.pick(&[700usize, 2048, 5000, 1 << 20]);
+        jobs.push(Case::Big { bpk, pre: rng.range(0, 5) as usize, n, post: rng.range(0, 5) as usize, gap });
     }
     let rule = rep.rule.clone();
     crate::par::run_jobs(jobs, drv_path, &mut rep, job);
